@@ -736,7 +736,19 @@ func getFuncName(stack []Value, sb int) unistring.String {
 			if _, isProxy := f.self.(*proxyObject); isProxy {
 				return "proxy"
 			}
-			return nilSafe(f.self.getStr("name", nil)).string()
+			// This is called while an exception or an interrupt is being processed, so it must not run
+			// any script code (an accessor, or toString() of a non-string value).
+			name := f.self.getOwnPropStr("name")
+			if prop, ok := name.(*valueProperty); ok {
+				if prop.accessor {
+					return ""
+				}
+				name = prop.value
+			}
+			if s, ok := name.(String); ok {
+				return s.string()
+			}
+			return ""
 		}
 	}
 	return ""
